@@ -370,10 +370,23 @@ def check_local(case):
       # spec per child listing ALL its matching parent values
       if _merge_conditional_specs(proto):
         out.cls('wire_multi_parent_value_condition')
+    # another configuration object made from the same message is edited in
+    # place first (a follow-up study derived from a materialised config): the
+    # object used below is a different one and must not have changed with it
+    decoy = svz.StudyConfig.from_proto(proto)
+    decoy.search_space.root.add_float_param('zz_decoy', 0.0, 1.0)
     cfg = svz.StudyConfig.from_proto(proto)
+    if any(pc.name == 'zz_decoy' for pc in cfg.search_space.parameters):
+      out.violate('config/shared_with_another_object',
+                  'a parameter added to one StudyConfig.from_proto(message) '
+                  'result shows up in the next one')
     lost = _lost_names(spec, cfg)
+  first_valid = None
   for i, t in enumerate(case['trials']):
     params = dict(t['params'])
+    if first_valid is None and t.get('made') == 'valid' and (
+        t.get('proto') == 'pytrial'):
+      first_valid = dict(t['params'])
     if t.get('proto') == 'pytrial':
       proto = svz.TrialConverter.to_proto(
           vz.Trial(id=i + 1, parameters=dict(t['params'])))
@@ -388,6 +401,24 @@ def check_local(case):
                 for k, v in params.items()}
     _judge(out, 'StudyConfig.trial_parameters[%s]' % case['mode'], spec,
            params, lambda: cfg.trial_parameters(proto), lost)
+  if first_valid is not None and not out.violations and not lost:
+    # the configuration object that has just been used for reading is edited
+    # in place (one more root parameter) and used again: it reads trials of
+    # the edited space
+    try:
+      cfg.search_space.root.add_discrete_param('zz_new', [1.0, 2.0])
+    except Exception:  # pylint: disable=broad-except
+      return out
+    spec2 = {'params': list(spec['params']) + [
+        {'name': 'zz_new', 'kind': 'DISCRETE', 'values': [1.0, 2.0],
+         'scale': None, 'auto_cast': True}]}
+    params2 = dict(first_valid, zz_new=2.0)
+    proto2 = svz.TrialConverter.to_proto(
+        vz.Trial(id=99, parameters=dict(params2)))
+    out.cls('config_edited_in_place')
+    _judge(out, 'StudyConfig.trial_parameters[%s, edited in place]' %
+           case['mode'], spec2, params2,
+           lambda: cfg.trial_parameters(proto2), lost)
   return out
 
 
